@@ -321,7 +321,7 @@ func init() {
 		P.scoreLevel = 2
 		if thorough {
 			fpathEqualsDpathV2(r, 3)
-			dpathSliceV2(r, P, st, func(gi int) bool { return gi%12 == 0 })
+			dpathSliceV2(r, P, st, func(gi int) bool { return true }) // the complete 141,441,309-vector domain through the real decoder
 		} else {
 			fpathEqualsDpathV2(r, 40)
 			dpathSliceV2(r, P, st, func(gi int) bool { return gi%480 == 0 })
@@ -331,7 +331,7 @@ func init() {
 		st.report(r, 2)
 		r.Set("oracle_exact_ties", int64(oracle.GetV2().Ties))
 		r.Set("exhaustive", true)
-		r.Set("rule", "all 729 base x 101 temporal x (1,920 environmental groups + absent) = 141,441,309 vectors: every (temporal group, environmental group) pair is decoded by the real environmental decoder, the 729 base assignments inside are made by assigning the exported base fields (premise checked against real decodes on a slice), Score() compared with the exact rational oracle (sets for exact halves; specification-negative region admits the negative tenth, the chain on 0, or 0); absent group must equal Temporal.Score(); additionally a slice of complete vectors through the real decoder; distinct by metric values")
+		r.Set("rule", "all 729 base x 101 temporal x (1,920 environmental groups + absent) = 141,441,309 vectors: every (temporal group, environmental group) pair is decoded by the real environmental decoder, the 729 base assignments inside are made by assigning the exported base fields (premise checked against real decodes on a slice), Score() compared with the exact rational oracle (sets for exact halves; specification-negative region admits the negative tenth, the chain on 0, or 0); absent group must equal Temporal.Score(); additionally complete vectors through the real decoder (quick: a slice; thorough: all 141,441,309); distinct by metric values")
 		r.Assume("exact oracle: math/big.Rat, CVSS v2 guide section 3.2.3 equations")
 		r.Assume("known finding D1 (known_findings.txt): cases whose value equals the specification chain evaluated with AdjustedImpact rounded to two decimals are counted under the finding, everything else is a violation")
 	})
